@@ -133,7 +133,11 @@ class CVRPEnv(RL4COEnvBase):
     @staticmethod
     def get_action_mask(td: TensorDict) -> torch.Tensor:
         # For demand steps_dim is inserted by indexing with id, for used_capacity insert node dim for broadcasting
-        exceeds_cap = td["demand"] + td["used_capacity"] > td["vehicle_capacity"]
+        # Demands are multiples of 1/capacity accumulated in float32: a customer that fills the vehicle exactly
+        # may sum to 1 + ulp, so use the same tolerance as `check_solution_validity`
+        exceeds_cap = (
+            td["demand"] + td["used_capacity"] > td["vehicle_capacity"] + 1e-5
+        )
 
         # Nodes that cannot be visited are already visited or too much demand to be served now
         mask_loc = td["visited"][..., 1:].to(exceeds_cap.dtype) | exceeds_cap
